@@ -44,8 +44,9 @@ class SymAVM:
     def __init__(self, prog: Program, cfg: CtxConfig, bounds: Optional[Bounds] = None,
                  record_exits: bool = False, entry: int = 0, init_stack=None, init_scratch=None,
                  routine_starts: Optional[set] = None, havoc_callsub=None, stop_at: Optional[int] = None,
-                 record_const_loads: bool = False):
+                 record_const_loads: bool = False, entry_label: Optional[str] = None):
         self.prog = prog
+        self.entry_label = entry_label
         self.cfg = cfg
         self.bounds = bounds or Bounds()
         self.record_exits = record_exits
@@ -77,6 +78,9 @@ class SymAVM:
         self.scratch = scratch
         calls: List[_Frame] = []
         self.calls = calls
+        if self.entry_label is not None:
+            # routine-level run: the routine was "called" from a sentinel return address (= stop_at)
+            calls.append(_Frame(self.stop_at, len(st), self.entry_label))
         back: Dict[int, int] = {}
         exits: List[Tuple] = []
         const_loads: List[Tuple] = []
@@ -90,7 +94,7 @@ class SymAVM:
         while True:
             if self.stop_at is not None and pc == self.stop_at:
                 return Outcome([], "return", ret=None, effects=list(path.effects),
-                               extra={"stack": list(st), "scratch": dict(scratch), "stopped": True})
+                               extra={"stack": list(st), "scratch": dict(self.scratch), "stopped": True})
             if pc >= n:
                 # ran off the end: legal only in the main routine with exactly one uint64
                 if calls:
@@ -835,6 +839,11 @@ class SymAVM:
     def _load(self, k: int):
         if k in self.scratch:
             v = self.scratch[k]
+            return v
+        if getattr(self, "havoc_gen", 0):
+            # slot clobbered by a havoc'd callee and not rewritten since: arbitrary value
+            v = self.w.uvar("hv%d.slot%d" % (self.havoc_gen, k))
+            self.scratch[k] = v
             return v
         if self.cfg.uninit_tracking:
             v = U(0)
